@@ -960,7 +960,10 @@ func runStress(k *mon.Case, ps *procState, fam string, early, big bool) {
 	select {
 	case <-hsFailCh:
 		k.Count(fam+".remote-v2-handshake-failed", 1)
-		k.C.Note(fmt.Sprintf("v2 remote handshake failed in %s %d: %v", k.Family, k.Index, hsErr))
+		if e := fmt.Sprint(hsErr); !strings.Contains(e, "closed") && !strings.Contains(e, "EOF") && !strings.Contains(e, "injected") && !strings.Contains(e, "broken pipe") {
+			// anything but "the connection went away during the handshake" is worth a note
+			k.C.Note(fmt.Sprintf("v2 remote handshake failed in %s %d: %v", k.Family, k.Index, hsErr))
+		}
 	default:
 	}
 	k.Count(fam+".cause."+o.Cause, 1)
